@@ -108,4 +108,15 @@ CHECKS = {
                 "round-trip exactness and absence of exponent form.",
         "technique": "TLA+ token-level WKT grammar (TLC exhaustive) + TLC-generated re-spellings replayed + TLC trace validation of recorded texts",
     },
+    "C06": {
+        "text": "GeoJSON.tla defines abstract RFC 7946 documents, the shape predicate (member names, nesting by type, 2/3-element "
+                "positions), the decode rule (one global 2D/3D decision, truncation beyond three, bad position lengths) and the losses "
+                "the format forces; TLC proves Decode(Encode(Loss g)) = Loss g and idempotence on a family; documents enumerated by TLC "
+                "from a grammar are rendered to JSON by TLC and replayed into the real UnmarshalGeoJSON and every concrete Go type; and "
+                "the real MarshalJSON output (re-parsed by encoding/json, and on the small-integer sub-domain by TLC's own JSON reader) "
+                "must have the RFC shape and decode to Loss(g) both by the specification's rule and by the library; Feature / "
+                "FeatureCollection round trips are logged and compared.",
+        "note": TLCNOTE + "JSON number text <-> float64 trusted to strconv/encoding/json.",
+        "technique": "TLA+ abstract GeoJSON document model (TLC exhaustive) + TLC-generated documents replayed + TLC trace validation of recorded output",
+    },
 }
